@@ -375,6 +375,15 @@ def _inplace(osy, rng, res, e, ents, groups, views, steps, label, n):
     if not representable:
         # numpy would have refused; osyris succeeded: then it must be exact
         res.count("not-representable-succeeded")
+    # a float32 target whose true result leaves float32's range (histories multiply repeatedly) is not
+    # representable either: adopt what numpy stored and stop judging this step
+    for q_new, c in zip(newq, _comps(r)):
+        if np.dtype(c.dtype) == np.float32:
+            raw_true = np.abs(np.asarray(q_new.v / np.longdouble(scale_dims(c.unit)[0]), dtype=np.longdouble))
+            if np.any(raw_true > 1e36) or np.any((raw_true > 0) & (raw_true < 1e-36)):
+                e.q = _quant(r)
+                res.count("float32-range-exceeded")
+                return True
     if np.dtype(_comps(x)[0].dtype).kind in "iu":
         # integer buffers hold the (possibly truncated) numbers numpy stored; only demand exactness when the
         # true result is integral in x's unit
